@@ -32,10 +32,16 @@ def plan(tier, seed):
     leafs = LEAFS if tier == 'thorough' else [l for l in LEAFS if len(l) < 3 or 1 in l or l in ([2, 3, 2], [3, 2, 3], [2, 2, 3])]
     single = [{'leaf': l, 'vals': v} for l in leafs for v in VALS]
     trees = [{'leafs': [a, b], 'vals': v} for a, b in itertools.product(TREE_LEAFS, repeat=2) if len(a) != len(b) for v in ([2], [3], [2, 3], [1, 3])]
+    same_rank = [([3], [1]), ([1], [3]), ([2, 3], [1, 3]), ([2, 3], [2, 1]), ([1, 3], [2, 3]), ([2, 3], [2, 3]), ([3, 2], [2, 3]), ([2, 1, 3], [2, 2, 3]), ([2, 2, 3], [2, 1, 3])]
+    trees += [{'leafs': [a, b], 'vals': v} for a, b in same_rank for v in ([2], [3], [2, 3], [1, 3], [1])]
+    r3_vals = [[2, 2, 2], [2, 3, 2], [1, 2, 3]]
+    r3_leafs = [[2, 2, 2], [2, 3, 2], [3, 2, 2], [1, 2, 3], [2, 3], [2, 2]] + ([[2, 2, 3], [3, 2, 3], [2, 1, 2]] if tier == 'thorough' else [])
+    rank3 = [{'leaf': l, 'vals': v, 'r3': True} for l in r3_leafs for v in r3_vals]
     misc = [{'misc': k} for k in ('scalar', 'pytree', 'inverse_zero', 'inverse_tree')]
     return [
         {'name': 'grid', 'target': TARGET, 'x64': False, 'cases': single, 'chunk': 2},
         {'name': 'trees', 'target': TARGET, 'x64': False, 'cases': trees, 'chunk': 4},
+        {'name': 'rank3', 'target': TARGET, 'x64': False, 'cases': rank3, 'chunk': 1},
         {'name': 'misc', 'target': TARGET, 'x64': False, 'cases': misc, 'chunk': 1},
     ]
 
@@ -137,7 +143,12 @@ def run(phase, cases, ctx):
         v = data(vshape, 3)
         leafs = [case['leaf']] if 'leaf' in case else case['leafs']
         xs = [data(ls, 7 + i) for i, ls in enumerate(leafs)]
-        forms = axis_forms(len(vshape), ctx.get('tier', 'thorough')) if 'only' not in case else [case['only']['ax']]
+        if 'only' in case:
+            forms = [case['only']['ax']]
+        elif case.get('r3'):
+            forms = [list(t) for t in itertools.product(range(-3, 3), repeat=3)] + [0, -1]
+        else:
+            forms = axis_forms(len(vshape), ctx.get('tier', 'thorough'))
         for ax in forms:
             for name, cls, strict in classes:
                 if 'only' in case and case['only']['cls'] != name:
@@ -177,6 +188,14 @@ def run(phase, cases, ctx):
                                                'detail': f'{name}, values {vshape}, leaf {ls}, axes {ax}: got shape {got.shape} {got.ravel()[:8]}, reference shape {want.shape} {want.ravel()[:8]}'})
                             break
                     else:
+                        if strict and 'leafs' in case:
+                            A = np.asarray(op.as_matrix(), float)
+                            import scipy.linalg
+
+                            blocks = [np.diag(np.broadcast_to(ref_apply(v, *exp, np.ones(ls, np.float32)), tuple(ls)).ravel()) for exp, ls in zip(exps, leafs)]
+                            want = scipy.linalg.block_diag(*blocks)
+                            if A.shape != want.shape or not np.array_equal(A, want):
+                                violations.append({'kind': 'as_matrix', 'case': one, 'detail': f'as_matrix() on a pytree with leaves {leafs} differs from the laid-out values: diag {np.diag(A)[:10]} vs {np.diag(want)[:10]}'})
                         if strict and 'leaf' in case:
                             A = np.asarray(op.as_matrix(), float)
                             want = np.diag(np.broadcast_to(ref_apply(v, *exps[0], np.ones(leafs[0], np.float32)), tuple(leafs[0])).ravel())
